@@ -42,7 +42,21 @@ Print Assumptions C19_old_acceptConn_refuted.
    Proof (MeshLive.v): a global invariant, deadlock freedom (in a reachable
    state in which no thread is enabled the mesh is complete) and a measure
    (3 x program-counter rank + 2 x backlog length + accept-thread bit, summed
-   over the parties) that every non-stuttering step strictly decreases. *)
+   over the parties) that every non-stuttering step strictly decreases.
+   TIME IS NOT MODELLED: a schedule is just an interleaving, so the theorem
+   holds whatever real-time delay lies between two steps — in particular
+   between a party's Join and its Connect, between an accept and the arrival of
+   the hello, between any two parties' starts ("every order and timing in which
+   the parties start").  Conversely, any real-time bound in the implementation
+   that can fire between two steps of a fair schedule (a read deadline on an
+   accepted connection, a dial or hello timeout, a context deadline) is
+   behaviour OUTSIDE this model: an implementation with such a timer on the
+   mesh-formation path does NOT refine the model and the theorem says nothing
+   about it.  The tie therefore includes (harness c19) late-start scenarios
+   (one party calls Connect 1.2 .. 6 s after the others) and a source inventory
+   of every timer / deadline / use of package time or context in p2p/network.go
+   and p2p/peer.go, which must equal the list the model was written against
+   (today: empty); key c19:timing-inventory:unmodelled:<site>. *)
 Theorem C19_complete :
   forall n k, 2 <= n -> 1 <= k -> k <= 256 ->
   forall sched, fair n k sched ->
